@@ -196,6 +196,17 @@ theorem jrpc_gate_body (c : Cfg) (ip : IP) (cr : Cred) (b : Body) (m : String)
         exact ⟨ip_gate c ip hg.1 hl, auth_gate c cr hg.2, jfunc_gate c _ hf⟩
       · exact absurd h (by simp)
 
+/-- … and the receiver method `net/rpc` then looks up (`ServiceMethod[LastIndex(".")+1:]`) is exactly the
+segment the lists judged: **the method that runs** is whitelisted and not blacklisted. -/
+theorem jrpc_method_that_runs (c : Cfg) (ip : IP) (cr : Cred) (b : Body) (m fn : String)
+    (h : jrpcServes c ip cr b = some m) (hn : rpcMethodName m = some fn) (hl : ip.isLoopback = false) :
+    (OnWhitelist c ip ∨ Wildcard c) ∧ AuthOK c cr ∧
+      MethodWhitelisted c.jWL fn ∧ MethodNotBlacklisted c.jBL fn := by
+  rw [rpcMethodName_eq_lastSeg m fn hn]
+  exact jrpc_gate_body c ip cr b m h hl
+
+example : rpcMethodName "x.Probe.Ping" = some "Ping" ∧ rpcMethodName "Ping" = none := by decide
+
 example : jrpcServes { whitelist := ["10.0.0.7"], jWL := ["Version"], user := "u", pass := "p" }
     (.v4 10 0 0 7) (.pair "u" "p")
     (.obj [("METHOD", .str "Chain33.CloseQueue"), ("id", .uint 3), ("Method", .str "Chain33.Version"), ("params", .arr)])
